@@ -80,7 +80,20 @@ static Json::Value genC08(Rng& rng) {
                                  "swap_free",      "exists",
                                  "nr_dying_descendants"};
   // swap state (for swap_free)
-  int64_t swapTotalKb = rng.pick<int64_t>({0, 1 << 20, 4 << 20});
+  int64_t swapTotalKb =
+      rng.pick<int64_t>({0, 1536, 4096, 1 << 20, 4 << 20, 8388700});
+  // free swap right at / just around pct % of the total (the comparison is in
+  // bytes, not in truncated megabytes)
+  auto swapUsedKb = [&]() -> int64_t {
+    if (rng.chance(0.5)) {
+      int64_t pct = rng.pick<int64_t>({1, 15, 50, 99});
+      int64_t freeKb = swapTotalKb * pct / 100 +
+          rng.pick<int64_t>({-1024, -513, -4, -1, 0, 1, 4, 1024});
+      freeKb = std::max<int64_t>(0, std::min(swapTotalKb, freeKb));
+      return swapTotalKb - freeKb;
+    }
+    return swapTotalKb * rng.pick({0, 1, 50, 85, 86, 99, 100}) / 100;
+  };
   for (int r = 0; r < nr; r++) {
     std::string R_ = std::to_string(r);
     std::string type = kTypes[rng.below(7)];
@@ -239,8 +252,7 @@ static Json::Value genC08(Rng& rng) {
       op["op"] = "proc";
       Json::Value e(Json::arrayValue);
       e.append((Json::Int64)swapTotalKb);
-      e.append((Json::Int64)(swapTotalKb * rng.pick({0, 1, 50, 85, 86, 99, 100}) /
-                             100));
+      e.append((Json::Int64)swapUsedKb());
       op["v"]["swaps"].append(e);
       op["v"]["vmstat"]["pswpout"] =
           (Json::Int64)(161634 + t * rng.pick({0, 1, 256, 100000}));
@@ -255,7 +267,7 @@ static Json::Value genC08(Rng& rng) {
   if (swapTotalKb) {
     Json::Value e(Json::arrayValue);
     e.append((Json::Int64)swapTotalKb);
-    e.append((Json::Int64)(swapTotalKb / 2));
+    e.append((Json::Int64)(rng.chance(0.5) ? swapTotalKb / 2 : swapUsedKb()));
     proc["swaps"].append(e);
   }
   w["proc"] = proc;
